@@ -1297,13 +1297,15 @@ impl GRLParser {
 
         // String literal
         if trimmed.len() >= 2 {
-            let unquoted = &trimmed[1..trimmed.len() - 1];
-            if (trimmed.starts_with('"') && trimmed.ends_with('"') && !unquoted.contains('"'))
-                || (trimmed.starts_with('\'')
-                    && trimmed.ends_with('\'')
-                    && !unquoted.contains('\''))
-            {
-                return Ok(Value::String(unquoted.to_string()));
+            // Slice only after both (ASCII) quotes are known to be there: for arbitrary
+            // text, byte 1 and byte len-1 need not be character boundaries.
+            let quoted_by = |quote: char| {
+                trimmed.starts_with(quote)
+                    && trimmed.ends_with(quote)
+                    && !trimmed[1..trimmed.len() - 1].contains(quote)
+            };
+            if quoted_by('"') || quoted_by('\'') {
+                return Ok(Value::String(trimmed[1..trimmed.len() - 1].to_string()));
             }
         }
 
